@@ -134,8 +134,31 @@ def palettes():
             number = ConfColor("OK")
             SUB_PALETTES_MAP = {PPEnumFieldType.EnumPalette: AltEnumPalette}
 
+        # Palette classes produced by a factory: every call gives a *distinct* class with the same
+        # __module__ / __qualname__ (as classes made in a loop, re-defined in a console or after a module
+        # reload have) but other colors.
+        def table_palette_factory(border, header, warn):
+            class FactoryTablePalette(PPTable.TablePalette):
+                pass
+            return type(FactoryTablePalette)(
+                "FactoryTablePalette", (PPTable.TablePalette,),
+                {"border": ConfColor(border), "header": ConfColor(header), "warn": ConfColor(warn),
+                 "__module__": __name__, "__qualname__": "palettes.<locals>.FactoryTablePalette"})
+
+        def pp_palette_factory(name, number, keyword):
+            return type(PrettyPrinter.PPPalette)(
+                "FactoryPPPalette", (PrettyPrinter.PPPalette,),
+                {"name": ConfColor(name), "number": ConfColor(number), "keyword": ConfColor(keyword),
+                 "__module__": __name__, "__qualname__": "palettes.<locals>.FactoryPPPalette"})
+
+        f_table = [table_palette_factory("ERROR", "KEYWORD", "OK"), table_palette_factory("NUMBER", "WARN", "NAME")]
+        f_pp = [pp_palette_factory("ERROR", "OK", "WARN"), pp_palette_factory("NUMBER", "KEYWORD", "NAME")]
+        for a, b in (f_table, f_pp):
+            assert a is not b and a.__qualname__ == b.__qualname__ and a.__module__ == b.__module__
+
         _PAL = {"table": AltTablePalette, "pp": AltPPPalette, "ghist": AltGHistPalette,
-                "recfmt": AltRecordPalette, "enum": AltEnumPalette}
+                "recfmt": AltRecordPalette, "enum": AltEnumPalette,
+                "factory": {"table": f_table, "pp": f_pp}}
     return _PAL
 
 
@@ -310,10 +333,15 @@ TABLE_FMT = "id:1-4,name:3-6,status!,status/val:5,status/name:4-20,status/full:1
 SMALL_RECORDS = [(1, "ab", 10), (2, None, 999)]
 SMALL_FMT = "id,name:1-4,status!,status/name:3-6"
 
-OBJECT_KINDS = {"pp": "pp", "tbl": "table", "tbl2": "table", "tbl_s": "table", "rec1": "recfmt", "rec2": "recfmt",
-                "recr": "recfmt", "gh": "ghist", "hd": "hdoc"}
-ITERABLE = ("pp", "tbl", "tbl2", "tbl_s", "gh")
+OBJECT_KINDS = {"pp": "pp", "tbl": "table", "tbl2": "table", "tbl_s": "table", "tblu": "table",
+                "rec1": "recfmt", "rec2": "recfmt", "recr": "recfmt", "recu": "recfmt", "gh": "ghist", "hd": "hdoc"}
+ITERABLE = ("pp", "tbl", "tbl2", "tbl_s", "tblu", "gh")
+# 'tblu' / 'recu' share the enum field type with the other tables / formatters of the world and contain
+# values that are not in the enum: one longer (404404) and one shorter (4) than every enum value
+UNKNOWN_RECORDS = [(1, "a", 404404), (2, "b", 4), (3, "c", 10), (4, "d", 999)]
+UNKNOWN_FMT = "id,status,status/val:8,status/name:3-9"
 HAS_PALETTE_CLASS = ("pp", "tbl", "tbl_s", "rec1", "gh")
+HAS_FACTORY_CLASS = ("pp", "tbl")          # palette variants "f1" / "f2": first / second class of one factory
 # format changes applied to the table 'tbl' during a history (limits section only: the columns are kept,
 # i.e. cloned by the implementation); 'tbl2' is PPTable(records, fmt_obj=tbl.fmt), built at its first use
 FMT_OPS = {"*": ";*", "1:1": ";1:1"}
@@ -366,6 +394,10 @@ class Printable:
     def palette_class(self):
         return palettes().get(self.kind)
 
+    def factory_class(self, n):
+        """n-th (1, 2) palette class of the factory for this kind of object."""
+        return palettes()["factory"][self.kind][n - 1]
+
 
 def build_object(name, shared):
     """Build printable `name`; `shared` is a dict holding what several printables of one world share
@@ -386,6 +418,13 @@ def build_object(name, shared):
         src = shared["tbl"]            # the caller supplies the table whose format object is reused
         t = PPTable(list(TABLE_RECORDS), fmt_obj=src.obj.fmt, header="Users of the system")
         return Printable(name, kind, t)
+    if name == "tblu":
+        t = PPTable(list(UNKNOWN_RECORDS), fields=["id", "name", "status"], fields_types={"status": enum},
+                    fmt=UNKNOWN_FMT, footer="")
+        return Printable(name, kind, t)
+    if name == "recu":
+        f = PPRecordFmt("id:2,status:20,status/val:7", fields=["id", "name", "status"], fields_types={"status": enum})
+        return Printable(name, kind, f, (3, "u", 404404))
     if name == "tbl_s":
         t = PPTable(list(SMALL_RECORDS), fields=["id", "name", "status"], fields_types={"status": enum},
                     fmt=SMALL_FMT, footer="")
@@ -461,6 +500,8 @@ def _serve(req):
             kw["colors_conf"] = conf
     if variant == "pc":
         kw["palette"] = p.palette_class
+    elif variant in ("f1", "f2"):
+        kw["palette"] = p.factory_class(int(variant[1]))
     out = {"whole": text_of(p.result(**kw))}
     if name in ITERABLE:
         out["lines"] = [line_text(line) for line in p.result(**kw)]
@@ -551,6 +592,9 @@ def reference_requests():
                     reqs.append({"obj": name, "spec": spec, "variant": "std", "route": "explicit", "fmt": fmt})
                     if name in HAS_PALETTE_CLASS:
                         reqs.append({"obj": name, "spec": spec, "variant": "pc", "route": "explicit", "fmt": fmt})
+                    if name in HAS_FACTORY_CLASS:
+                        for v in ("f1", "f2"):
+                            reqs.append({"obj": name, "spec": spec, "variant": v, "route": "explicit", "fmt": fmt})
     return reqs
 
 
